@@ -363,6 +363,7 @@ package twig
 //@ list order_injective_keys toString
 //@ func sortedMapKeys props: C05 C03
 //@   requires ufi_kind(rv) == 21
+//@   ensures[C19] len(ret) == ufi_rvlen(rv)
 
 // ---------------------------------------------------------------- truthiness (C09, C19)
 // false, every numeric zero, "", nil, an empty list and an empty map are falsy; everything else is
@@ -579,11 +580,26 @@ package twig
 //@   flag streams yes
 //@   ensures dlen(data) == 9 && ditem(data, 0) == iU8(1) && lenPrefixed(data, 1) && lenPrefixed(data, 3) && isI64(ditem(data, 5)) && isI64(ditem(data, 6)) && lenPrefixed(data, 7) ==> err == nil && ret0.Name == bytesval(ditem(data, 2)) && ret0.Source == bytesval(ditem(data, 4)) && ret0.LastModified == i64val(ditem(data, 5)) && ret0.CompileTime == i64val(ditem(data, 6)) && bytesStr(ret0.AST) == bytesval(ditem(data, 8))
 // loading keeps name, source and timestamp of the compiled template
+// ... and its tree is the one the parser yields for the compiled source, whenever the compiled data
+// carries no serialised tree (a serialised tree that decodes is trusted to be that template's)
+//@ ghost lpn Iface
+//@ ghost lps Str
+//@ func (*Parser).Parse
+//@   ghostassign lpn ret0
+//@   ghostassign lps source
 //@ func LoadFromCompiled props: C16
 //@   nonnil compiled
+//@   atcall[C16] (*Parser).Parse a1 == compiled.Source
+//@   ensures[C16] err == nil && len(compiled.AST) == 0 ==> ret0.nodes == lpn && lps == compiled.Source
 //@   ensures err == nil ==> ret0.name == compiled.Name && ret0.source == compiled.Source && ret0.lastModified == compiled.LastModified && ret0.env == env && ret0.engine == engine
 
 // ---------------------------------------------------------------- cache and loaders (C15)
+// the file system loader answers with an error only after it has asked for the file in every one of
+// its paths (remembering where a template was last found is a shortcut, never a reason to give up),
+// or when a file that is there cannot be read
+//@ func (*FileSystemLoader).Load props: C15
+//@   loop 1 invariant[C15] 0 - 1 <= rangeindex && rangeindex < len(l.paths) && nstat >= old(nstat) + rangeindex + 1
+//@   ensures[C15] ret1 != nil ==> laststat || nstat >= old(nstat) + len(l.paths)
 // loader events are named, not interpreted (abstraction)
 //@ iface Loader.Load
 //@   assumed
@@ -794,6 +810,25 @@ package twig
 //@   ensures[C11] plainName() && !has(ctx.context, name) && globalHas() ==> ret0 == ctx.env.globals[name] && ret1 == nil && lk == old(lk)
 //@   ensures[C11] plainName() && !has(ctx.context, name) && !globalHas() && ctx.parent != nil ==> lk == emitLookup(old(lk), ctx.parent, name) && ret0 == lookRes(old(lk), ctx.parent, name) && ret1 == lookErr(old(lk), ctx.parent, name)
 //@   ensures[C11] plainName() && !has(ctx.context, name) && !globalHas() && ctx.parent == nil ==> ret0 == nil && ret1 == nil && lk == old(lk)
+
+// The include tag's own scanner for the hash after "with" (tokenizeObjectContents), one byte per
+// round (i0, in0, sd0, cp0, st0: position, string state, opening quote, colon position and start of
+// the pair at the start of the round): inside a string literal only an unescaped quote of the kind
+// that opened it ends it, and outside one an unescaped quote of either kind opens one; the key/value
+// separator of a pair, once found, stays where it is until the pair is emitted (it is the first
+// top-level colon, so a value may contain "?:").
+//@ func (*ZeroAllocTokenizer).tokenizeObjectContents props: C08 C11
+//@   loop 1 snapshot i0 i
+//@   loop 1 snapshot in0 inString
+//@   loop 1 snapshot sd0 stringDelim
+//@   loop 1 snapshot cp0 colonPos
+//@   loop 1 snapshot st0 start
+//@   loop 1 invariant[C11,C08] inString ==> (stringDelim == 34 || stringDelim == 39)
+//@   loop 1 step[C11,C08] i == i0 + 1
+//@   loop 1 step[C11,C08] in0 && i0 < len(content) ==> (inString == !(content[i0] == sd0 && (i0 == 0 || content[i0 - 1] != 92))) && (inString ==> stringDelim == sd0)
+//@   loop 1 step[C11,C08] !in0 && i0 < len(content) && !(content[i0] == 44 && inObject == 0 && inArray == 0) ==> (inString == ((content[i0] == 34 || content[i0] == 39) && (i0 == 0 || content[i0 - 1] != 92))) && (inString ==> stringDelim == content[i0])
+//@   loop 1 step[C08,C11] cp0 != 0 - 1 && start == st0 ==> colonPos == cp0
+//@   loop 1 step[C08,C11] in0 && inString ==> colonPos == cp0 && start == st0
 
 // A macro name is resolved in the innermost context that binds it: the context's own macros first,
 // otherwise exactly what the parent's lookup yields (the event is named, not interpreted), and
@@ -1116,6 +1151,25 @@ package twig
 //@ func (*CoreExtension).filterLast props: C19
 //@   ensures[C19] typeIs(value, "[]interface{}") ==> ret1 == nil && ret0 == ite(len(asList(value)) > 0, asList(value)[len(asList(value)) - 1], nil)
 //@   ensures[C19] typeIs(value, "string") && len(asStr(value)) > 0 ==> ret1 == nil && typeIs(ret0, "string") && unboxAs(ret0, "string") == str_of_rune(runes_of(asStr(value))[runecount(asStr(value)) - 1])
+// join: the elements' string forms, in order, handed to strings.Join with the separator; the result
+// is what that call yields. split (no limit): strings.Split of the string form at the separator, as
+// a whole - so that, with the documented behaviour of the two library functions, splitting what join
+// produced from separator-free strings gives the list back.
+//@ define asStrs(X) unboxAs(X, "[]string")
+//@ func join props: C19
+//@   loop 1 invariant[C19] typeIs(v, "[]interface{}") && 0 - 1 <= rangeindex && rangeindex < len(asList(v)) && len(items) == rangeindex + 1 && (freshArr(items) || len(items) == 0) && (forall j int :: 0 <= j && j <= rangeindex ==> items[j] == fn_toString_0(asList(v)[j]))
+//@   atcall[C19] strings.Join#1 a0 == asStrs(v) && a1 == delimiter
+//@   atcall[C19] strings.Join#2 a1 == delimiter && (typeIs(v, "[]interface{}") ==> len(a0) == len(asList(v)) && (forall j int :: 0 <= j && j < len(a0) ==> a0[j] == fn_toString_0(asList(v)[j])))
+//@   ensures[C19] typeIs(v, "[]interface{}") || typeIs(v, "[]string") ==> ret1 == nil && ret0 == jn
+//@ func (*CoreExtension).filterJoin props: C19
+//@   atcall[C19] join a1 == ite(len(args) > 0 && typeIs(old(args[0]), "string"), unboxAs(old(args[0]), "string"), " ")
+//@ func (*CoreExtension).filterSplit props: C19
+//@   atcall[C19] strings.Split a0 == fn_toString_0(value) && a1 == ite(len(args) > 0 && typeIs(args[0], "string"), unboxAs(args[0], "string"), " ")
+//@   ensures[C19] len(args) <= 1 ==> ret1 == nil && typeIs(ret0, "[]string") && unboxAs(ret0, "[]string") == sp
+// keys of a typed map (reflection path): a new generic list with at most one element per entry
+//@ func (*CoreExtension).filterKeys props: C19
+//@   loop 2 invariant[C19] 0 - 1 <= rangeindex && rangeindex < len(rangeover()) && len(rangeover()) == ufi_rvlen(rv) && len(keys) <= rangeindex + 1 && (freshArr(keys) || len(keys) == 0)
+//@   ensures[C19] value != nil && !typeIs(value, "map[string]interface{}") && ufi_kind(ufV_valueOf(value)) == 21 ==> ret1 == nil && typeIs(ret0, "[]interface{}") && len(asList(ret0)) <= ufi_rvlen(ufV_valueOf(value))
 // reverse of a list: same length, element k is element len-1-k of the input, in a new list (so it
 // is a length-preserving involution and the input is untouched)
 //@ func (*CoreExtension).filterReverse props: C19
